@@ -2,6 +2,7 @@ import RV.C14.Lemmas
 import RV.C14.SkolemLemmas
 import RV.C14.CanonLemmas
 import RV.C14.SearchLemmas
+import RV.C14.RefineLemmas
 /-
   C14 — property statements and theorems.
 
@@ -205,6 +206,65 @@ example : distinguishItems 5 [(b 1, p, b 2), (b 2, p, b 3)] [b 1, b 2, b 3] (b 2
     [.inn 5 p, .out p 5] := by decide
 example : distinguishItems 5 [(b 1, p, b 2), (b 2, p, b 3)] [b 1, b 2, b 3] (b 1) = [.out p 5] := by decide
 
+
+/-! ## The worklist loop of `_refine` (RV/C14/Canon.lean `refineStep` / `refinePass` / `refineLoop` / `refine`)
+
+    `RefineRun` (RefineLemmas.lean) is the fuel-free big-step semantics of
+    `while len(sequence) > 0 and not self._discrete(coloring): W = sequence.pop(); for c in coloring[:]: …`. -/
+
+/-- the loop TERMINATES: for every colouring whose colours are non-empty and every sequence the `while` loop has a run,
+    the run is unique, and the fuelled `refineLoop` computes its result as soon as the fuel reaches
+    `refineFuel = len(sequence) + (number of nodes - number of colours) + 1` (every iteration pops one splitter and pushes
+    exactly one per newly created cell, and there are never more cells than nodes) -/
+def Statement_refine_terminates : Prop :=
+  ∀ (H : List Item → Nat) (HT : Term → Nat) (g : Graph) (P S : List Color), WFc P →
+    ∀ fuel, refineFuel P S ≤ fuel →
+      RefineRun H HT g P S (refineLoop H HT g fuel P S) ∧
+      ∀ R, RefineRun H HT g P S R → R = refineLoop H HT g fuel P S
+
+/-- the result REFINES the input colouring: colours stay non-empty, the nodes are the same multiset (nothing lost,
+    nothing duplicated), every resulting colour lies inside one input colour; and when the resulting colour hashes are
+    pairwise distinct the collision merge at the end of `_refine` changes nothing -/
+def Statement_refine_refines : Prop :=
+  ∀ (H : List Item → Nat) (HT : Term → Nat) (g : Graph) (fuel : Nat) (P S : List Color), WFc P →
+    WFc (refineLoop H HT g fuel P (sortDesc H HT S)) ∧
+    (allNodes (refineLoop H HT g fuel P (sortDesc H HT S))).Perm (allNodes P) ∧
+    SubCells (refineLoop H HT g fuel P (sortDesc H HT S)) P ∧
+    (((refineLoop H HT g fuel P (sortDesc H HT S)).map (Color.hash H HT)).Nodup →
+      refine H HT g fuel P S = refineLoop H HT g fuel P (sortDesc H HT S))
+
+/-- the call made by `canonical_triples` (`_refine(coloring, coloring[:])` on `_initial_color()`) meets the
+    hypotheses: its colours are non-empty and `refineInit` runs with enough fuel -/
+def Statement_refineInit_runs : Prop :=
+  ∀ (H : List Item → Nat) (HT : Term → Nat) (g : Graph),
+    WFc (initialColor g) ∧
+    RefineRun H HT g (initialColor g) (sortDesc H HT (initialColor g))
+      (refineLoop H HT g (refineFuel (initialColor g) (initialColor g)) (initialColor g)
+        (sortDesc H HT (initialColor g)))
+
+theorem refine_terminates : Statement_refine_terminates := by
+  intro H HT g P S hwf fuel hf
+  have h := refineLoop_run H HT g fuel P S hwf hf
+  exact ⟨h, fun R hR => RefineRun_det hR h⟩
+
+theorem refine_refines : Statement_refine_refines := by
+  intro H HT g fuel P S hwf
+  obtain ⟨a, b, c⟩ := refineLoop_spec H HT g fuel P (sortDesc H HT S) hwf
+  refine ⟨a, b, c, fun hnd => ?_⟩
+  unfold refine
+  have := mergeByHash_id H HT (refineLoop H HT g fuel P (sortDesc H HT S)) [] (by simpa using hnd)
+  simpa using this
+
+theorem refineInit_runs : Statement_refineInit_runs := by
+  intro H HT g
+  refine ⟨initialColor_wf g, refineLoop_run H HT g _ _ _ (initialColor_wf g) ?_⟩
+  unfold refineFuel
+  rw [sortDesc_length]
+  exact Nat.le_refl _
+
+/-- non-vacuity: on the directed path 1→2→3 the loop separates all three nodes (and needs more than one iteration) -/
+example : refinePartition [(b 1, p, b 2), (b 2, p, b 3)] = [[3], [1], [2]] := by decide
+example : refinePartition [(b 1, p, b 2), (b 2, p, b 3), (b 3, p, b 1)] = [[1, 2, 3]] := by decide
 
 /-! ## The exhaustive individualisation–refinement search `canonSearch` (RV/C14/Search.lean)
 
